@@ -15,6 +15,7 @@ CLASS_HOME = {
     'PhysicalUnit': 'openmdao/utils/units.py',
     'FiniteDifference': 'openmdao/approximation_schemes/finite_difference.py',
     '_SubHelper': 'openmdao/utils/file_wrap.py',
+    'DOEDriver': 'openmdao/drivers/doe_driver.py',
     'ComplexStep': 'openmdao/approximation_schemes/complex_step.py',
     'OptionsDictionary': 'openmdao/utils/options_dictionary.py',
     'Autoscaler': 'openmdao/drivers/autoscalers/autoscaler.py',
@@ -39,6 +40,7 @@ PROPERTY_MODULES = {
     'C08': ['contracts.c08_scaling'],
     'C29': ['contracts.c29_filewrap'],
     'C05': ['contracts.c05_indexer'],
+    'C23': ['contracts.c23_doe'],
 }
 
 # modules whose contracts may be used as callee contracts by any property
@@ -68,6 +70,7 @@ PROPERTY_ASSUMPTIONS = {
             'assumed: _iter_get_norm returns NaN or a value >= 0; _single_iteration and _run_apply neither raise nor modify solver control state'],
 }
 GAPS = {
+    'C23': ['all generator classes (value maps, designs, strata, reproducibility): bounded exhaustive tier only', 'drivers/sampling/* counterparts', 'Driver._set_design_var (assumed)', 'parallel DOE (MPI)'],
     'C05': ['Indexer class hierarchy (shaped_instance / as_array / indexed_src_shape / _check_bounds): bounded exhaustive tier against NumPy only', 'index chains through promotes (C04)', 'known finding F5a (recorded, not repaired)'],
     'C29': ['write->read round trip through re/pyparsing: bounded exhaustive tier only', 'transfer_2Darray, transfer_keyvar, anchors with occurrence != 1', 'string values containing delimiters'],
     'C08': ['System/Group._compute_root_scale_factors (how a0, a1, factor, offset are derived from metadata)', 'System._scaled_context_all / _unscaled_context around every user callback', 'DefaultVector._allocate_scaling_data sharing between linear and nonlinear vectors', 'converged outputs and total derivatives of whole models under different ref/ref0/res_ref (solver numerics)'],
@@ -269,3 +272,22 @@ def _c05_extra(tier, seed, native_run):
 
 
 EXTRA_TIERS['C05'] = _c05_extra
+
+
+def _c23_extra(tier, seed, native_run):
+    out = {'violations': [], 'errors': []}
+    r = _run_bounded('c23_doe.py', [tier])
+    if 'error' in r:
+        out['errors'].append('bounded DOE tier could not run: ' + r['error'])
+        return out
+    out['bounded_doe_generators'] = {
+        'note': 'BOUNDED stand-in (not counted in obligations): generator loops (nested generators over dict items, pyDOE, numpy.random) are outside the subset',
+        'bound': '<=3 design variables of size <=2, scalar/array bounds incl. negative and degenerate, levels<=3, samples<=4, seeds {0,7}; FullFactorial, LatinHypercube (None, center), Uniform, PlackettBurman, BoxBehnken; DOEDriver end-to-end on 2 models',
+        'evaluations': r['evaluations'], 'distinct_nontrivial': r['distinct_nontrivial'], 'exhaustive': True,
+        'failures': r['n_failures'], 'samples': r['samples']}
+    for f in r['failures'][:3]:
+        out['violations'].append(dict(f, what='DOE generators: ' + f['kind'], witness_id='c23-%s' % json_key(f)))
+    return out
+
+
+EXTRA_TIERS['C23'] = _c23_extra
